@@ -11,31 +11,30 @@
 using namespace hx;
 using namespace ds;
 using sx::form;
-using sx::term;
 
 static std::string op;
 static int swap_operands = 0;
 static const int N = 4;
 static int NSYM = 1;
 
-static form gamma(dom_t &d, const std::vector<term> &s, const std::vector<var_t> &V) {
+static form gamma(dom_t &d, const std::vector<sx::term> &s, const std::vector<var_t> &V) {
   if (B(d.is_bottom())) return form(false);
   form f(true);
   for (int i = 0; i < N; i++) f = f && mem(d.at(V[i]), s[i]);
   auto csts = d.to_linear_constraint_system();
   for (auto const &c : csts) {
-    term v(c.expression().constant());
+    sx::term v(c.expression().constant());
     for (auto it = c.expression().begin(); it != c.expression().end(); ++it) {
       int idx = -1;
       for (int i = 0; i < N; i++)
         if (V[i].index() == (*it).second.index()) idx = i;
       if (idx < 0) throw sxe::no_verdict{"constraint over an unknown variable"};
-      v = v + term((*it).first) * s[idx];
+      v = v + sx::term((*it).first) * s[idx];
     }
-    if (c.is_inequality()) f = f && (v <= term(0));
-    else if (c.is_strict_inequality()) f = f && (v < term(0));
-    else if (c.is_equality()) f = f && (v == term(0));
-    else f = f && !(v == term(0));
+    if (c.is_inequality()) f = f && (v <= sx::term(0));
+    else if (c.is_strict_inequality()) f = f && (v < sx::term(0));
+    else if (c.is_equality()) f = f && (v == sx::term(0));
+    else f = f && !(v == sx::term(0));
   }
   return f;
 }
@@ -44,23 +43,23 @@ static void harness() {
   vfac_t vf;
   std::vector<var_t> V;
   for (int i = 0; i < N; i++) V.push_back(var_t(vf["v" + std::to_string(i)], crab::INT_TYPE, 32));
-  term ia = fresh("SA"), ib = fresh("SB");
-  assume(ia >= term(0) && ia <= term(15) && ib >= term(0) && ib <= term(15));
-  if (sx::opts().geti("sa", -1) >= 0) assume(ia == term(sx::opts().geti("sa", 0)));
+  sx::term ia = fresh("SA"), ib = fresh("SB");
+  assume(ia >= sx::term(0) && ia <= sx::term(15) && ib >= sx::term(0) && ib <= sx::term(15));
+  if (sx::opts().geti("sa", -1) >= 0) assume(ia == sx::term(sx::opts().geti("sa", 0)));
   long sa = concretise(ia), sb = concretise(ib);
   dom_t A = make_top(), Bv = make_top();
-  std::vector<term> s1, s2;
+  std::vector<sx::term> s1, s2;
   int nsym = 0;
   for (int i = 0; i < N; i++) {
-    term x = fresh("x"), y = fresh("y");
+    sx::term x = fresh("x"), y = fresh("y");
     if (sa & (1 << i)) {
       A += lcsts_t(lcst_t(lexp_t(znum(0)) - lexp_t(V[i]), lcst_t::INEQUALITY));
       A += lcsts_t(lcst_t(lexp_t(V[i]) - lexp_t(znum(5)), lcst_t::INEQUALITY));
-      assume(x >= term(0) && x <= term(5));
+      assume(x >= sx::term(0) && x <= sx::term(5));
     }
     if (sb & (1 << i)) {
       // NSYM variables get symbolic bounds (the others [1,4], inside the left operand's [0,5])
-      term l(1), u(4);
+      sx::term l(1), u(4);
       if (nsym < NSYM) {
         l = fresh("l");
         u = fresh("u");
@@ -81,10 +80,10 @@ static void harness() {
   dom_t A0(A), B0(Bv);
   if (op == "join" || op == "wid") {
     dom_t R = op == "join" ? (A | Bv) : (A || Bv);
-    term p = fresh("pick");
-    assume(p >= term(0) && p <= term(1));
-    std::vector<term> s;
-    for (int i = 0; i < N; i++) s.push_back(sx::ite(p == term(1), s1[i], s2[i]));
+    sx::term p = fresh("pick");
+    assume(p >= sx::term(0) && p <= sx::term(1));
+    std::vector<sx::term> s;
+    for (int i = 0; i < N; i++) s.push_back(sx::ite(p == sx::term(1), s1[i], s2[i]));
     check(gamma(R, s, V), (op + " describes the states of both operands").c_str());
 #if DOM == 1
     for (int i = 0; i < N; i++) {
